@@ -25,6 +25,11 @@ def run(repo: Repo, tier, rep: Report):
     rep.floor("production functions scanned", nfn, 120)
     rep.floor("temporal write sites", nsites, 30)
     rep.sample(dict(engine="W", rule="W1.owner", functions=nfn, write_sites=nsites))
+    cc = common.ctor(repo, tier)
+    common.take_ctor(rep, cc, ("C06.clip", "C16.convert", "C16.reciprocal", "C10.replay", "C16.isolate"),
+                     skip_keys=("missing-reverse-direction",))     # a missing direction is a C16 matter, not a canonicity one
+    rep.ob("O.constructors", "time_slice / conversions / event replay", "the spans the library's constructors feed to "
+           "add_interaction are the canonical ones (start, closed end + 1), in stored order")
     try:
         from sa.kinds import check_constructors
     except ImportError:
